@@ -351,10 +351,10 @@ func fillBindings(row *Row, a *GoAnalysis, id int) {
 	row.ParseError = a.ParseError
 	row.Decls = a.Decls
 	row.Duplicates = a.Duplicates
-	row.ClientStubs = a.stubsNamed("Foo")
-	row.Server = serverInfo(a, "Svc", "Foo")
-	row.QF = a.QF["FooQF"]
-	want := rowPkg(id) + ".Svc.Foo"
+	row.ClientStubs = a.stubsNamed(rowMethodGo)
+	row.Server = serverInfo(a, "Svc", rowMethodGo)
+	row.QF = a.QF[rowMethodGo+"QF"]
+	want := rowPkg(id) + ".Svc." + rowMethodProto
 	row.MethodStrOK = true
 	for i := range row.ClientStubs {
 		s := &row.ClientStubs[i]
@@ -728,7 +728,7 @@ func leanRow(r *Row) string {
 func writeLean(file, repo string, rows []*Row) error {
 	var b bytes.Buffer
 	b.WriteString("-- GENERATED by `gr table` (verifgen) from the working tree of " + repo + ". DO NOT EDIT.\n")
-	b.WriteString("-- One row per combination of the gorums method options on a single method Foo(Request) returns (Response).\n")
+	b.WriteString("-- One row per combination of the gorums method options on a single method foo_bar(Request) returns (Response).\n")
 	b.WriteString("-- Row i of genTable has id i; bits of the id: " + strings.Join(BitOrder, ", ") + ".\n")
 	b.WriteString("namespace GorumsV.Generated\n\n")
 	b.WriteString("structure GenRow where\n")
@@ -736,11 +736,11 @@ func writeLean(file, repo string, rows []*Row) error {
 	b.WriteString("  outcome : String      -- ok | diag | timeout | crash\n")
 	b.WriteString("  deterministic : Bool\n")
 	b.WriteString("  files : Nat\n")
-	b.WriteString("  stubs : List String   -- sorted \"Recv.entryPoint\" of every client stub named Foo\n")
+	b.WriteString("  stubs : List String   -- sorted \"Recv.entryPoint\" of every client stub named FooBar\n")
 	b.WriteString("  dupDecls : Nat        -- number of duplicated top-level declaration keys\n")
 	b.WriteString("  serverShape : String  -- unary | oneway | stream | \"\" (no file)\n")
 	b.WriteString("  hasQF : Bool\n")
-	b.WriteString("  methodStrOK : Bool    -- every client stub and the server registration use \"p<row>.Svc.Foo\"\n")
+	b.WriteString("  methodStrOK : Bool    -- every client stub and the server registration use \"p<row>.Svc.foo_bar\" (the full proto name; the Go name is FooBar)\n")
 	b.WriteString("  perNodeSet : Bool     -- some stub sets PerNodeArgFn\n")
 	b.WriteString("  diagClass : String    -- \"\" | async-needs-quorumcall | client-stream-needs-multicast | server-stream-needs-correctable | correctable-client-stream | other\n")
 	b.WriteString("  deriving Repr, DecidableEq, BEq\n\n")
